@@ -1214,6 +1214,7 @@ func mkKeys(n int) []*key {
 }
 
 func run(c *fw.Ctx) {
+	c.ConcPart()
 	boot()
 	nk := 3
 	if c.Thorough() {
